@@ -26,6 +26,28 @@ class SqliteMixin:
             self._sql_schema = sch
         return self._sql_schema
 
+    def x_sqlite3_connect(self, args, kw, st, node):
+        """sqlite3.connect(path): a new connection object.  What the file holds is unknown, but it is a database of this
+        schema: its rows satisfy the constraints SQLite enforces (A-DBFILE: db_inv), and a new connection has no open
+        transaction (nothing pending)."""
+        self.trusted_used.add("A-DBFILE: the database file opened by sqlite3.connect satisfies the schema's constraints (unique bucket ids, "
+                              "events reference existing buckets, row ids below the AUTOINCREMENT marks); a new connection has no open transaction")
+        ref = st.new_ref()
+        conn = Val(ObjT(CONN), ref)
+        db = self.db(st, conn)
+        for key, srt in self.sqlite_keys():
+            st.write(key, srt, ref, fresh("db0_" + key.rsplit(".", 1)[-1], srt))
+        db.set_scalar("committed", db.scalar("issued"))
+        inv = self.x_bi_db_inv([conn], {}, st, node)
+        st.assume(inv.t)
+        return conn
+
+    def x_os_path_exists(self, args, kw, st, node):
+        return Val(BOOL, fresh("path_exists", B))           # the file system is not modelled: either answer
+
+    def x_os_path_join(self, args, kw, st, node):
+        return Val(STR, fresh("path", S))
+
     def sqlite_keys(self):
         """Every heap field of a modelled connection object: (key, element sort)."""
         sch = self.sql_schema()
@@ -228,10 +250,6 @@ class SqliteMixin:
         return self.new_cursor(st, conn, rowcount=n)
 
     # -- Python API -----------------------------------------------------------------------------------------------
-    def x_sqlite3_connect(self, args, kw, st, node):
-        ref = st.new_ref()
-        return Val(ObjT(CONN), ref)
-
     def sqlite_method(self, recv, name, args, kw, st, node):
         cls = recv.ty.args[0]
         if cls == CONN:
